@@ -431,7 +431,12 @@ func vfhC11PriorityReentrant() {
 		x, y := float64(i%5)*3, float64(i/5)*3
 		items[i] = BulkItem{Box: Box{MinX: x, MinY: y, MaxX: x + 1, MaxY: y + 1}, RecordID: i}
 	}
-	qx := vfLattice("qx", 4) // any position along the row (decided over the reals)
+	qxs := []float64{-2, 0, 4, 7, 13}
+	qx := qxs[vfInt("q", 0, len(qxs)-1)]
+	boxes := make([]Box, n) // BulkLoad permutes its argument
+	for i := range items {
+		boxes[i] = items[i].Box
+	}
 	q := Box{MinX: qx, MinY: -1, MaxX: qx, MaxY: -1}
 	q2 := Box{MinX: 20, MinY: 20, MaxX: 21, MaxY: 21}
 	t := BulkLoad(items)
@@ -439,9 +444,11 @@ func vfhC11PriorityReentrant() {
 	_ = t.PrioritySearch(q2, func(int) error { return nil })
 	_, _ = t.Nearest(q)
 	seen := make([]int, n)
+	var order []int
 	err := t.PrioritySearch(q, func(id int) error {
 		vfAssert(id >= 0 && id < n, "record id is one of the loaded ids")
 		seen[id]++
+		order = append(order, id)
 		// a nested query on the same tree
 		nid, found := t.Nearest(q2)
 		vfAssert(found && nid >= 0 && nid < n, "the nested query finds a record")
@@ -453,6 +460,9 @@ func vfhC11PriorityReentrant() {
 	vfAssert(err == nil, "no error")
 	for i := range seen {
 		vfAssert(seen[i] == 1, "the outer search visits every record exactly once despite the nested searches")
+	}
+	for k := 0; k+1 < len(order); k++ {
+		vfAssert(vfSqDist(boxes[order[k]], q) <= vfSqDist(boxes[order[k+1]], q), "and in non-decreasing order of distance")
 	}
 	vfReach("end")
 }
